@@ -34,6 +34,8 @@ type ctxExtra struct {
 	entryArgs   map[string]Val
 	strict      bool
 	writes      map[string]bool
+	loopIndex   map[ast.Node]int
+	curLoop     ast.Node
 }
 
 func newCtx(e *Engine, fi *FuncInfo) *Ctx {
@@ -168,6 +170,15 @@ func (e *Engine) verifyFunc(fi *FuncInfo) *FuncResult {
 			}
 		}
 	}
+	// loops are numbered in source order (closures included)
+	c.loopIndex = map[ast.Node]int{}
+	ast.Inspect(fi.Decl.Body, func(n ast.Node) bool {
+		switch n.(type) {
+		case *ast.ForStmt, *ast.RangeStmt:
+			c.loopIndex[n] = len(c.loopIndex)
+		}
+		return true
+	})
 	fr := &frame{fi: fi, env: env, resultObjs: rs, sig: sig}
 	c.frames = []*frame{fr}
 	outs := c.execBlock(env, fi.Decl.Body.List, []*State{st})
